@@ -291,9 +291,6 @@ class SELBO(CallableModel):
             lp = (self.weights.tensor * torch.cat(log_probs)).sum()
         return lp
 
-    def handle_parameter_changed(self, variable, index, event):
-        pass
-
     def _sample_shape(self) -> torch.Size:
         return self.q.sample_shape
 
